@@ -86,7 +86,11 @@ class RenderNode(Node):
             )
         except TemplateNotFoundError as err:
             err.token = self.name.token
-            err.template_name = context.template.full_name()
+            # The enclosing Template.render_with_context (or the block that
+            # defines this node) knows which template this tag belongs to;
+            # context.template is the entry template while a base template or
+            # an overriding block is being rendered.
+            err.template_name = None
             raise
 
         namespace: dict[str, object] = dict(arg.evaluate(context) for arg in self.args)
@@ -148,7 +152,11 @@ class RenderNode(Node):
             )
         except TemplateNotFoundError as err:
             err.token = self.name.token
-            err.template_name = context.template.full_name()
+            # The enclosing Template.render_with_context (or the block that
+            # defines this node) knows which template this tag belongs to;
+            # context.template is the entry template while a base template or
+            # an overriding block is being rendered.
+            err.template_name = None
             raise
 
         namespace: dict[str, object] = dict(
